@@ -93,7 +93,10 @@ Fixpoint last_symlinks (opts : list cli_option) (acc : symval) : symval :=
 Definition path := N.
 (* gen: bumped whenever the path gets a new inode (the harness sees (st_ino, st_ctime_ns));
    NBin: a regular file whose bytes are not valid UTF-8 (read_file raises UnicodeDecodeError) *)
-Inductive node := NFile (c : str) (gen : N) | NBin (gen : N) | NLink (t : path) | NDir.
+(* a directory lists its entries in sorted(os.listdir) order (the order is the harness's business); of a name
+   only what expand_py_files_from_args tests is kept: starts with ".", equals "__pycache__", ends in ".py" *)
+Record dirent := mkEnt { ehidden : bool; epycache : bool; epy : bool; epath : path }.
+Inductive node := NFile (c : str) (gen : N) | NBin (gen : N) | NLink (t : path) | NDir (ents : list dirent).
 Definition fs := path -> option node.
 Definition upd (f : fs) (p : path) (v : option node) : fs := fun q => if (q =? p)%N then v else f q.
 
@@ -122,6 +125,39 @@ Definition isfile (f : fs) (p : path) : bool :=
   | None => false
   end.
 
+(* os.path.isdir follows the chain *)
+Definition dir_entries (f : fs) (p : path) : option (list dirent) :=
+  match resolve max_hops f p with
+  | Some q => match f q with Some (NDir ents) => Some ents | _ => None end
+  | None => None
+  end.
+Definition isdir (f : fs) (p : path) : bool := match dir_entries f p with Some _ => true | None => false end.
+
+(* the recursive step of expand_py_files_from_args (a stack with reversed pushes = depth-first, in listing order):
+       for f in reversed(pathname.list()):
+           if f.base.startswith("."): continue
+           if f.base == "__pycache__": continue
+           if f.isfile:
+               if f.ext == ".py": stack.append((f, True))          # under the entry's own name, symlink or not
+           elif f.isdir: stack.append((f, False))
+   The boolean is false when the fuel (nesting depth) ran out. *)
+Fixpoint expand_dir (fuel : nat) (f : fs) (p : path) : list path * bool :=
+  match fuel with
+  | O => ([], false)
+  | S k =>
+      match dir_entries f p with
+      | None => ([], true)
+      | Some ents =>
+          fold_right (fun e acc =>
+                        let r := if ehidden e || epycache e then ([], true)
+                                 else if isfile f (epath e) then ((if epy e then [epath e] else []), true)
+                                 else if isdir f (epath e) then expand_dir k f (epath e)
+                                 else ([], true) in
+                        (fst r ++ fst acc, snd r && snd acc)) ([], true) ents
+      end
+  end.
+Definition dir_fuel : nat := 64.
+
 (* ---------------------------------------------------------------------------------------------
    Modifier: lazily computed, cached input / output of one file
 
@@ -130,7 +166,7 @@ Definition isfile (f : fs) (p : path) : bool :=
 Record mstate := mkM { mfile : path; minput : option str; moutput : option str }.
 Definition fresh (p : path) : mstate := mkM p None None.
 
-Inductive errkind := ErrBadFilename | ErrRead | ErrModify | ErrEOF | ErrSymlink.
+Inductive errkind := ErrBadFilename | ErrRead | ErrModify | ErrEOF | ErrSymlink | ErrDepth (* model: directory nesting beyond dir_fuel *).
 Inductive outcome :=
 | Normal | Abort (* AbortActions *) | ExitOne (* Exit1 *) | Error (k : errkind) (* any Exception *)
 | Fatal (* SystemExit: leaves process_actions *).
@@ -247,9 +283,8 @@ Fixpoint run_actions (fx : fixes) (modf : str -> option str) (acts : list action
 (* ---------------------------------------------------------------------------------------------
    process_actions *)
 
-(* a command-line argument: a path, or a directory with the *.py files its recursive traversal
-   yields (expansion itself is M11's business; the harness restates it) *)
-Inductive arg := APath (p : path) | ADir (members : list path).
+(* a command-line argument *)
+Inductive arg := APath (p : path).
 
 Record result := mkR {
   rfs : fs;
@@ -267,8 +302,10 @@ Fixpoint expand (f : fs) (args : list arg) : list path * list (path * errkind) :
   | APath p :: r =>
       let '(fl, er) := expand f r in
       (* expand_py_files_from_args walks reversed(pathnames): on_error fires in reverse order *)
-      if isfile f p then (p :: fl, er) else (fl, er ++ [(p, ErrBadFilename)])
-  | ADir ms :: r => let '(fl, er) := expand f r in (ms ++ fl, er)
+      if isfile f p then (p :: fl, er)
+      else if isdir f p then
+        (let '(ms, ok) := expand_dir dir_fuel f p in if ok then (ms ++ fl, er) else (fl, er ++ [(p, ErrDepth)]))
+      else (fl, er ++ [(p, ErrBadFilename)])
   end.
 
 Record loop := mkL { lst : pstate; lexit : N; lerrs : list (path * errkind); llog : list (path * outcome); lfatal : bool }.
